@@ -46,6 +46,25 @@ def matrix(tier, rnd):
             if point != "idle":
                 for second in ("kill", "cancel"):
                     add(P.lifecycle_scenario(0, sig, point, "senders", second=second))
+    # taking the terminal back after an Exec fails (the external program closed the input it was handed): the program is
+    # still a program - every cause ends it with its own error
+    for cause in ("sigint", "sigterm", "quit", "kill", "interrupt"):
+        o = {"fps": 120}
+        script = [P.W("started"), P.W("idle"), P.DO("send", msg=P.B("exec", close_in=True, cb=True)), P.DO("sleep", us=80000), P.W("idle")]
+        if cause in ("sigint", "sigterm"):
+            o["nosighandler"] = False
+            script.append(P.DO("signal", sig="int" if cause == "sigint" else "term"))
+        elif cause == "kill":
+            script.append(P.DO("kill"))
+        else:
+            script.append(P.DO("go-send", msg=P.B(cause)))
+        script.append(P.W("returned"))
+        s = P.scenario(0, script, opts=o, inp={"kind": "pipe"}, watchdog_ms=4000)
+        if cause in ("sigint", "sigterm"):
+            s["isolate"] = True
+        else:
+            s["parallel_ok"] = True
+        add((s, {"cause": cause, "point": "after-failed-restore", "pending": "none", "causes": [cause]}))
     # an input message read but undeliverable while a cause strikes (the read loop gives up with a context error)
     for rep in range(10 if tier == "quick" else 60):
         for cause in ("cancel", "kill"):
@@ -57,6 +76,15 @@ def matrix(tier, rnd):
                            P.DO("send", msg=P.U(2)), P.W("idle"), P.DO("quit"), P.W("returned")],
                        inp={"kind": "reader" if k else "pipe", "end": "eof", "bytes": [120]}, parallel_ok=True)
         add((s, {"cause": "quit", "point": "idle", "pending": "eof", "causes": ["quit"], "eof": True}))
+    # ... also when the input ends while the reader is holding bytes back: the last read filled its 256-byte buffer and ends
+    # in something that may be incomplete (a lone ESC, the start of a CSI, half a UTF-8 character), or fills it exactly
+    for tail in ([27], [195], [27, 91], [27, 91, 49], [97]):
+        for kind in ("pipe", "reader"):
+            data = [97] * (256 - len(tail)) + tail
+            s = P.scenario(0, [P.W("started"), P.DO("sleep", us=30000), P.DO("send", msg=P.U(1)), P.W("idle"),
+                               P.DO("send", msg=P.U(2)), P.W("idle"), P.DO("quit"), P.W("returned")],
+                           inp={"kind": kind, "end": "eof", "bytes": data}, parallel_ok=True)
+            add((s, {"cause": "quit", "point": "idle", "pending": "eof-held:%s" % tail, "causes": ["quit"], "eof": True}))
     if tier != "quick":
         # scheduler variety: the racy combinations again under different GOMAXPROCS and yields
         for rep in range(6):
@@ -79,7 +107,8 @@ def judge(res, metas, results, proofs_ok, broken, cex):
     res.oblige("harness: every scenario ran as scripted (%d scenarios)" % len(pairs), not mach,
                [(m["cause"], m["point"], P.machinery_problem(r)) for m, r in mach[:3]])
     bad = [(m, r) for m, r in pairs if r["id"] in bad_ids and not P.machinery_problem(r)]
-    eof_bad = [(m, r) for m, r in pairs if m.get("eof") and len([e for e in r["events"] if e["ev"] == "UpdateBegin"]) < 2]
+    eof_bad = [(m, r) for m, r in pairs if m.get("eof") and not P.machinery_problem(r) and
+               (r["run_err"] != "nil" or not {"u:1", "u:2"} <= {e.get("key") for e in r["events"] if e["ev"] == "UpdateBegin"})]
     res.oblige("Spec on real runs (Coq: Spec.LifeSpec.outcome_ok): Run returned with the error class of a cause that struck, %d runs" % len(pairs),
                not bad, [(m["cause"], m["point"], m["pending"], r["run_returned"], r["run_err"]) for m, r in bad[:4]])
     res.oblige("Spec on real runs: end of input alone does not end the program", not eof_bad)
